@@ -335,10 +335,21 @@ def _block_scalar_lines(node, indent):
 
 
 def _is_block_scalar(node):
-    return node["t"] == "s" and node.get("q") in (">", "|") \
-        and isinstance(node["v"], str) and node.get("raw") is None \
-        and not any(ord(ch) < 0x20 and ch != "\n" or 0x7f <= ord(ch) <= 0x9f
-                    for ch in node["v"])
+    if not (node["t"] == "s" and node.get("q") in (">", "|")
+            and isinstance(node["v"], str) and node.get("raw") is None):
+        return False
+    value = node["v"]
+    if any(ord(ch) < 0x20 and ch != "\n" or 0x7f <= ord(ch) <= 0x9f
+           for ch in value):
+        return False
+    # A block scalar whose first line is blank or indented needs an explicit
+    # indentation indicator, which ruamel.yaml 0.17.21 writes wrongly (">4"
+    # for an indent of 2): its own dump of such a document does not load.
+    body = value.rstrip("\n")
+    if not body or body[0] in " \n" or body[-1] == " " or "  " in body \
+            or "\n " in body or " \n" in body:
+        return False
+    return True
 
 
 def block_lines(node, indent=0):
